@@ -170,6 +170,15 @@ def catalog(tier="quick"):
         return d
     out.append(("descriptions/line-boundary-characters", make_descriptions))
 
+    def make_quotes(sym):
+        # quotation marks and backslashes in free text: an apostrophe alone, a doubled apostrophe, a double quote alone, both kinds, backslashes
+        d = base(name="quotes", description="the operator's panel")
+        d["inputs"][0]["description"] = "a 5'' sensor"
+        d["outputs"][0]["description"] = 'the "valve" output'
+        d["blocks"][0]["description"] = "both 'single' and \"double\" quotes, a back\\slash and a trailing one\\"
+        return d
+    out.append(("descriptions/quotes", make_quotes))
+
     def make_empty(sym):
         # components with nothing in them are still components: a variable without terms, a block without rules
         return base(inputs=[{"name": "X", "terms": [T_A, T_B]}, {"name": "Z", "range": (sym("zlo", "p"), sym("zhi", "p"))}],
